@@ -407,12 +407,22 @@ func c18Flate(c *Ctx) {
 				} else {
 					s.F[iC] = fold.Nil{}
 				}
+				// whatever happened before: a failed writer with withheld bytes, or one that looks
+				// untouched (no error, nothing withheld - the compressor may still hold input of a
+				// message that was never flushed)
+				clean := mm.Choose("looks-clean", 2) == 1
 				s.F[iErr] = fold.Sym{Name: "old-error", NonNil: true}
 				cbv := fold.SymOfType("cbuf", cb).(fold.Struct)
 				cbv.F[bBuf] = fold.Arr{E: []fold.Val{fold.K(1), fold.K(2), fold.K(3), fold.K(4)}}
 				cbv.F[bN] = fold.K(3)
 				cbv.F[bDst] = fold.Iface{V: fold.Sym{Name: "old-dest", NonNil: true}}
 				cbv.F[bErr] = fold.Sym{Name: "old-cbuf-error", NonNil: true}
+				if clean {
+					s.F[iErr] = fold.Nil{}
+					cbv.F[bBuf] = fold.Arr{E: []fold.Val{fold.K(0), fold.K(0), fold.K(0), fold.K(0)}}
+					cbv.F[bN] = fold.K(0)
+					cbv.F[bErr] = fold.Nil{}
+				}
 				s.F[iCbuf] = cbv
 				obj = mm.NewObj("w", s)
 				return []fold.Val{fold.Ref{O: obj}, fold.Iface{V: fold.Sym{Name: "dest", NonNil: true}}}
